@@ -1,5 +1,6 @@
 import GoPlugin.Lemmas.Lifecycle
 import GoPlugin.Props.C01
+import GoPlugin.Model.CmdRunner
 /-
 C05 — A failed start never leaves a plugin process behind.
 
@@ -78,5 +79,15 @@ theorem dir_left_witness :
     ∃ s, runFrom ⟨true, true, true, false, true, true, true⟩ (init .runnerFunc false) [.start false, .killA false false, .killB] = some s ∧
       s.dirsLive = 1 := by
   refine ⟨(runFrom ⟨true, true, true, false, true, true, true⟩ (init .runnerFunc false) [.start false, .killA false false, .killB]).get (by decide), by simp, by decide⟩
+
+/-- **The stock runner's force kill reaches the process it started, whatever the host configured on the command**
+(process attributes of its own or none, leading a process group or not) — so every "the clean-up calls `runner.Kill`"
+above means "the process is ended" for command launches. -/
+theorem cmd_kill_reaches (P : CmdRunner.Params) (hP : P.Good) (c : CmdRunner.CmdCfg) : CmdRunner.killReaches P c = true := by
+  simp [CmdRunner.killReaches, hP.1]
+
+/-- Witness: a kill that addresses the process's GROUP misses a command whose own attributes do not make it a group
+leader (the runner left them alone, as it should). -/
+theorem group_kill_witness : CmdRunner.killReaches ⟨false, true⟩ ⟨true, false⟩ = false := by decide
 
 end GoPlugin.Props.C05
